@@ -191,10 +191,15 @@ func (e *Engine) smtText(o *Obligation, extra []string, getValues []string) stri
 		fmt.Fprintf(&b, "(assert (distinct %s))\n", strings.Join(fl, " "))
 	}
 	// constants
+	var symAx []string
 	for _, n := range e.declOrder {
 		if toks[n] {
 			fmt.Fprintf(&b, "(declare-const %s %s)\n", n, e.decl[n])
+			symAx = append(symAx, e.symAxioms[n]...)
 		}
+	}
+	for _, ax := range symAx {
+		fmt.Fprintf(&b, "(assert %s)\n", ax)
 	}
 	// axioms
 	for _, n := range ufn {
